@@ -225,24 +225,21 @@ func (nt *Net) SyncFrom(from, to *simnode.Node) {
 	if fh <= th {
 		return
 	}
-	// common ancestor: walk down from min(th, fh)
-	h := th
-	if fh < h {
-		h = fh
-	}
-	for ; h >= 1; h-- {
-		a, _ := from.Bridge.GetBlockByNumber(h)
-		b, _ := to.Bridge.GetBlockByNumber(h)
-		if a != nil && b != nil && a.Hash == b.Hash {
-			break
-		}
-	}
+	h := CommonAncestor(from, to)
 	r.Probe("sync")
 	if h < th {
 		r.Probe("sync-fork")
 	}
+	first := true
 	for start := h + 1; start <= fh; {
 		end := start + uint64(nt.MaxBatch) - 1
+		if first && h < th && end <= th {
+			// a side chain is only adopted when the delivered batch itself ends
+			// above the local frontier; the real downloader fetches up to 128
+			// momentums per batch, which always covers the 30-deep window
+			end = start + 127
+		}
+		first = false
 		if end > fh {
 			end = fh
 		}
@@ -260,6 +257,22 @@ func (nt *Net) SyncFrom(from, to *simnode.Node) {
 		}
 		start = end + 1
 	}
+}
+
+// CommonAncestor is the height of the last momentum two nodes share.
+func CommonAncestor(a, b *simnode.Node) uint64 {
+	h := a.Height()
+	if bh := b.Height(); bh < h {
+		h = bh
+	}
+	for ; h >= 1; h-- {
+		x, _ := a.Bridge.GetBlockByNumber(h)
+		y, _ := b.Bridge.GetBlockByNumber(h)
+		if x != nil && y != nil && x.Hash == y.Hash {
+			break
+		}
+	}
+	return h
 }
 
 func short(s string) string {
